@@ -21,5 +21,12 @@ CHECKS["C03"] = dict(
          "values; every shape-mismatched pair must raise",
     note=_TB + "; shapes are enumerated (<= 3), not symbolic",
     technique="symbolic execution of the Python source + z3 validity queries on term-DAG equalities; counterexamples replayed on float NumPy")
-for _p in ["C04","C05","C06","C07","C08","C09","C10","C11","C12","C13","C14","C15","C16","C17","C18","C19","C20"]:
+CHECKS["C20"] = dict(
+    text="the real __getitem__ / Sliced executed on 34 operator trees with symbolic payloads for every integer index in [-n, n), integer pairs, "
+         "row/column extraction, slice pairs with negative start/stop/step and empty results, integer index arrays and list pairs; z3 proves "
+         "scalars, vectors, sub-operator dense forms, sub-operator products (complex operands, both sides), second-level indexing and transposes equal "
+         "the NumPy index expression on the reference matrix for all payload values",
+    note=_TB + "; two index arrays are compared with the documented outer (np.ix_) semantics of Sliced",
+    technique="symbolic execution of the Python source + z3 validity queries on term-DAG equalities; counterexamples replayed on float NumPy")
+for _p in ["C04","C05","C06","C07","C08","C09","C10","C11","C12","C13","C14","C15","C16","C17","C18","C19"]:
     NA[_p] = "check under construction in this session (not yet registered); see DESIGN.md section 5 for the plan"
